@@ -34,7 +34,7 @@ def c12(tier):
         'samples': runs[:6],
         'evaluations': len(runs) * 2 + cov['collection_events_validated'],
         'distinct_nontrivial': len(runs) + cov['snapshots_validated'],
-        'rule': 'garbage loops: 16 allocation kinds (pairs and closures also driven in slices of 1000 instructions; pairs, vectors, strings, closures, continuations, continuation chains handed on by the receiver, eval, top-level forms, top-level forms with fresh local names, symbols, bignums, delay-force chains, bulk-builtin bursts, mixed) x live-set sizes {0,10,1000,4000: the last beyond one heap chunk} x iteration counts n and 10n (n=%d), natural '
+        'rule': 'garbage loops: 17 allocation kinds (runs of failing evaluations; pairs and closures also driven in slices of 1000 instructions; pairs, vectors, strings, closures, continuations, continuation chains handed on by the receiver, eval, top-level forms, top-level forms with fresh local names, symbols, bignums, delay-force chains, bulk-builtin bursts, mixed) x live-set sizes {0,10,1000,4000: the last beyond one heap chunk} x iteration counts n and 10n (n=%d), natural '
                 'collection cadence; snapshots at sampled natural collections and at forced collections of generated '
                 'sessions; distinct_nontrivial = loop configurations + snapshots validated' % plans[0]['n'],
         'garbage_runs': len(runs), 'iteration_counts': [plans[0]['n'], 10 * plans[0]['n']],
